@@ -60,9 +60,11 @@ Names  == {"sha256", "sha512", "SHA256", "md5", ""}
 Colons == {0, 1, 2}
 Lens   == {0, 1, 63, 64, 65, 127, 128, 129}
 Chars  == {"lowerhex", "upperhex", "nonhex", "space"}
-Shapes == [name : Names, colons : Colons, len : Lens, chars : Chars]
+\* white space around the whole string is part of the string: "<algorithm>:<hex>" and nothing else
+Pads   == {"none", "leading-space", "trailing-newline", "tab-crlf"}
+Shapes == [name : Names, colons : Colons, len : Lens, chars : Chars, pad : Pads]
 ChecksumOk(s, algo, hexlen) ==
-  s.name = algo /\ s.colons = 1 /\ s.len = hexlen /\ s.chars \in {"lowerhex", "upperhex"}
+  s.name = algo /\ s.colons = 1 /\ s.len = hexlen /\ s.chars \in {"lowerhex", "upperhex"} /\ s.pad = "none"
 ChecksumCases ==
   \A s \in Shapes :
     PrintT(<<"CV", ToJson([shape |-> s, sha256 |-> ChecksumOk(s, "sha256", 64), sha512 |-> ChecksumOk(s, "sha512", 128)])>>)
